@@ -65,13 +65,15 @@ def run(R):
         "'exactly that transaction': t_id identifies body + auth-info bytes; EIP-712 / raw Ethereum signatures cover the message (resp. the raw tx) and the sequence only -- theorem C02_exact_refuted_*, listed findings exact.*",
         "the sign document is abstracted to (mode, chain id, account number, sequence, identity of body+auth-info bytes); the oracle table is the real graph on the documents that occur",
         "replay theorem: fewer than 2^64 accepted transactions between the two submissions (uint64 sequence wrap)",
+        "fee payer / signer addresses are spelled canonically (lower-case bech32): an upper-case spelling of an address already among the signers makes cosmos-sdk's Tx.GetSigners list it twice (SDK behaviour outside /repo; both slots must still verify under that account's key; the model's signer list is duplicate-free)",
+        "genesis export / import is exercised as a continuation of 30 histories per run (sequence, key, account number survive; replays stay rejected); a failing export is recorded in the input distribution, not judged here (C12)",
     ]
     # the ante chain as the code has it NOW: decorator order and the shape of every return of every custom AnteHandle
     R.gen("gen_c02ante", "C02AnteChain.v")
     R.coq_files(FILES)
     R.coq_property()
     R.audit()
-    n = 250 if R.tier == "quick" else 5000
+    n = 200 if R.tier == "quick" else 5000
     obs = observe(R, n)
     total = 0
     if obs:
